@@ -58,3 +58,82 @@ package types
 //@   ensures exhausted_allocation_removed: err == nil && bounded && (forall d string :: A0[idx].SpendLimit.AmountOf(d) - ite(d == denom, amount, 0) == 0) ==> len(deref(a).Allocations) == len(A0) - 1 && (forall j int :: 0 <= j && j < len(A0) - 1 ==> deref(a).Allocations[j] == ite(j < idx, A0[j], A0[j + 1]))
 //@   ensures grant_deleted_when_empty: err == nil ==> result0.Delete == (len(deref(a).Allocations) == 0)
 //@   ensures update_persisted: err == nil && bounded && !result0.Delete ==> result0.Updated != nil && dyn(result0.Updated, *TransferAuthorization) != nil && deref(dyn(result0.Updated, *TransferAuthorization)).Allocations == deref(a).Allocations
+
+// ---- ICS-20 denomination paths (C34)
+
+// traceText(tr, n): the first n hops rendered as "port/channel/" each.
+//@ spec func traceText(tr []Hop, n int) string
+//@   axiom forall tr []Hop :: traceText(tr, 0) == ""
+//@   axiom forall tr []Hop, n int :: n >= 0 ==> traceText(tr, n + 1) == traceText(tr, n) + tr[n].PortId + "/" + tr[n].ChannelId + "/"
+
+//@ contract (Hop).String
+//@   pure
+//@   ensures result == h.PortId + "/" + h.ChannelId
+
+//@ contract (Denom).IsNative
+//@   pure
+//@   ensures result == (len(d.Trace) == 0)
+
+//@ contract (Denom).Path
+//@   pure
+//@   invariant #1 idx: 0 - 1 <= rangeindex && rangeindex < len(d.Trace)
+//@   invariant #1 text: builderText(sb) == traceText(d.Trace, rangeindex + 1)
+//@   ensures result == traceText(d.Trace, len(d.Trace)) + d.Base
+
+//@ contract (Denom).Hash
+//@   pure
+//@   ensures str(result) == sha256(d.Path())
+//@   ensures len(result) == 32
+
+//@ contract (Denom).IBCDenom
+//@   pure
+//@   ensures native_keeps_base: len(d.Trace) == 0 ==> result == d.Base
+//@   ensures voucher_is_hash_of_path: len(d.Trace) > 0 ==> result == "ibc/" + hexUpper(sha256(d.Path()))
+
+//@ contract (Denom).HasPrefix
+//@   pure
+//@   ensures result == (len(d.Trace) > 0 && d.Trace[0].PortId == portID && d.Trace[0].ChannelId == channelID)
+
+//@ contract ExtractDenomFromPath
+//@   pure
+//@   splitrec
+//@   let parts = strings.Split(fullPath, "/")
+//@   lemma trace_text_extensional: induct k :: forall a []Hop, b []Hop :: (forall j int :: 0 <= j && j < k ==> a[j] == b[j]) ==> traceText(a, k) == traceText(b, k)
+//@   lemma trace_text_append: forall a []Hop, r []Hop :: len(r) == len(a) + 1 && (forall j int :: 0 <= j && j < len(a) ==> a[j] == r[j]) ==> traceText(r, len(r)) == traceText(a, len(a)) + r[len(a)].PortId + "/" + r[len(a)].ChannelId + "/"
+//@   lemma join_two_more: forall a []string, k int, m int :: true ==> (0 <= k && m == k + 2 && m < len(a) ==> joinFrom(a, "/", k) == a[k] + "/" + a[k + 1] + "/" + joinFrom(a, "/", m))
+//@   lemma join_last_two: forall a []string, k int :: true ==> (0 <= k && k + 2 == len(a) ==> joinFrom(a, "/", k) == a[k] + "/" + a[k + 1])
+//@   use #1 trace_text_append(prev_trace, trace)
+//@   use #1 join_two_more(parts, prev_i, i)
+//@   use #1 join_last_two(parts, prev_i)
+//@   invariant #1 pairs: 0 <= i && i <= length && i == 2 * len(trace) && length == len(parts) && denomSplit == parts
+//@   invariant #1 short: length <= 2 ==> len(trace) == 0
+//@   invariant #1 base_unset: len(baseDenomSlice) == 0
+//@   invariant #1 hops: forall k int :: 0 <= k && k < len(trace) ==> trace[k].PortId == parts[2 * k] && trace[k].ChannelId == parts[2 * k + 1] && (channeltypes.IsValidChannelID(parts[2 * k + 1]) || clienttypes.IsValidClientID(parts[2 * k + 1]))
+//@   invariant #1 text: i < length ==> traceText(trace, len(trace)) + joinFrom(parts, "/", i) == fullPath
+//@   invariant #1 text_at_end: i == length ==> traceText(trace, len(trace)) == fullPath + "/"
+//@   ensures native: !strings.Contains(fullPath, "/") ==> len(result.Trace) == 0 && result.Base == fullPath
+//@   ensures short_paths_are_native: len(parts) <= 2 ==> len(result.Trace) == 0
+//@   ensures hops_are_pairs: 2 * len(result.Trace) <= len(parts) && (forall k int :: 0 <= k && k < len(result.Trace) ==> result.Trace[k].PortId == parts[2 * k] && result.Trace[k].ChannelId == parts[2 * k + 1] && (channeltypes.IsValidChannelID(parts[2 * k + 1]) || clienttypes.IsValidClientID(parts[2 * k + 1])))
+//@   ensures base_is_rest: result.Base == joinFrom(parts, "/", 2 * len(result.Trace))
+//@   ensures stops_at_first_non_hop: 2 * len(result.Trace) + 1 < len(parts) && len(parts) > 2 ==> !(channeltypes.IsValidChannelID(parts[2 * len(result.Trace) + 1]) || clienttypes.IsValidClientID(parts[2 * len(result.Trace) + 1]))
+//@   ensures round_trip: result.Base != "" ==> traceText(result.Trace, len(result.Trace)) + result.Base == fullPath
+//@   ensures all_hops_no_base: 2 * len(result.Trace) == len(parts) ==> result.Base == "" && traceText(result.Trace, len(result.Trace)) == fullPath + "/"
+
+//@ spec func escrowPreimage(portID string, channelID string) string = "ics20-1" + str(0) + portID + "/" + channelID
+
+//@ contract GetEscrowAddress
+//@   pure
+//@   ensures address_is_truncated_hash: str(result) == substr(sha256(escrowPreimage(portID, channelID)), 0, 20)
+//@   ensures len(result) == 20
+
+//@ contract (Hop).Validate
+//@   pure
+//@   ensures validators_pass: err == nil ==> host.PortIdentifierValidator(h.PortId) == nil && host.ChannelIdentifierValidator(h.ChannelId) == nil
+//@   ensures no_separator: err == nil ==> !contains(h.PortId, "/") && !contains(h.ChannelId, "/")
+
+//@ contract (Denom).Validate
+//@   pure
+//@   invariant #1 idx: 0 - 1 <= rangeindex && rangeindex < len(d.Trace)
+//@   invariant #1 hops_valid_so_far: forall j int :: 0 <= j && j <= rangeindex ==> d.Trace[j].Validate() == nil
+//@   ensures base_not_blank: err == nil ==> strings.TrimSpace(d.Base) != ""
+//@   ensures hops_valid: forall j int :: err == nil && 0 <= j && j < len(d.Trace) ==> d.Trace[j].Validate() == nil
